@@ -324,7 +324,10 @@ func RegexpQuery(text string, content, file bool) (Q, error) {
 
 	r = OptimizeRegexp(r, regexpFlags)
 
-	if r.Op == syntax.OpLiteral {
+	// A literal with the fold-case flag ((?i)foo) is not the plain string: its
+	// runes are stored in folded form and it must match case-insensitively
+	// whatever the case setting of the query, so it stays a regexp.
+	if r.Op == syntax.OpLiteral && r.Flags&syntax.FoldCase == 0 {
 		expr = &Substring{
 			Pattern:  string(r.Rune),
 			FileName: file,
